@@ -7,8 +7,8 @@ from .ci_adapter import contains
 FIELDS = ["path", "mtime", "size", "volume_id", "type", "format", "arch", "disc_number", "disc_count", "checksums", "implant_md5",
           "bootable", "subvariant", "unified", "additional_variants"]
 PATHS = [{"p1": "Server/x86_64/iso/z-boot.iso", "p2": "Server/x86_64/iso/a-dvd.iso", "p3": "unified/m.iso", "p4": "Client/b.iso",
-          "p5": "Server/x86_64/iso/a-dvd2.iso", "p6": "0/first.iso"},
-         {"p1": "b.iso", "p2": "a.iso", "p3": "B.iso", "p4": "a/a.iso", "p5": "a.iso.2", "p6": "_.iso"}]
+          "p5": "Server/x86_64/iso/a-dvd2.iso", "p6": "0/first.iso", "p8": "x/p8.iso"},
+         {"p1": "b.iso", "p2": "a.iso", "p3": "B.iso", "p4": "a/a.iso", "p5": "a.iso.2", "p6": "_.iso", "p8": "p8"}]
 VARS = [{"V1": "Server", "V2": "Client", "V-3": "Server-optional"}, {"V1": "b", "V2": "a", "V-3": "a-b"}]
 AV = {"none": [], "one": ["Client"], "two": ["Workstation", "Client"]}
 COMPOSES = [dict(label=None, final=False, ctype="production", respin=0), dict(label="RC-2.1", final=True, ctype="nightly", respin=3),
@@ -33,9 +33,9 @@ class Conc(object):
         j = int(n[1:])
         t = self.types[(self.rot * 6 + j) % len(self.types)]
         fmts = self.fmap[t] or self.allfmt
-        return {"path": self.paths[n], "mtime": 1432300000 + j, "size": 1234 + j if spec["size"] == "small" else (1 << 33) + j,
+        return {"path": self.paths[spec.get("pathof", n)], "mtime": 1432300000 + j, "size": 1234 + j if spec["size"] == "small" else (1 << 33) + j,
                 "volume_id": None if spec["volume_id"] == "null" else "Vol %s-22" % n, "type": t, "format": fmts[(self.rot + j) % len(fmts)],
-                "arch": [self.arch["a1"], self.arch["a2"], "src"][j % 3], "disc_number": spec["disc_number"], "disc_count": 3,
+                "arch": [self.arch["a1"], self.arch["a2"], "src"][j % 3], "disc_number": spec["disc_number"], "disc_count": spec.get("disc_count", 3),
                 "checksums": {"sha256": "%x" % j * 64} if spec["checksums"] == "one" else {"md5": "%x" % j * 32, "sha256": "%x" % (j + 6) * 64},
                 "implant_md5": None if spec["implant_md5"] == "null" else ("0123456789abcdef" * 2)[j:] + "f" * j,
                 "bootable": spec["bootable"], "subvariant": "Sub %s" % n, "unified": spec["unified"],
@@ -43,7 +43,7 @@ class Conc(object):
 
 
 def render_img(doc, conc, pool):
-    n = doc["path"].split(":")[1]
+    n = doc["n"]
     f = conc.fields(n, pool[n])
     out = {k: f[k] for k in doc if k in f}
     return out
@@ -68,6 +68,8 @@ def evaluate(case):
                 m.add(conc.vars[c["v"]], conc.arch[c["a"]], objs[n])
         text = m.dumps()
     except Exception as exc:
+        if not case.get("valid", True) and isinstance(exc, (ValueError, TypeError)):
+            return []                   # the library does not agree to write it: outside the claim (C06 judges refusals)
         return ["%s: valid manifest refused: %s: %s" % (what, type(exc).__name__, exc)]
     got = json.loads(text)
     fails = []
